@@ -320,6 +320,45 @@ pub fn run(ctx: &Ctx, rep: &mut Report) {
                 let over = Ep { valid: false, name: "token.transfer_from", named: b.clone(), counterparty: Some(a.clone()), owner: Some(owner.clone()),
                                 call: { let (s, f) = (b1.clone(), a1.clone()); mk(Rc::new(move |cl, _| flat(cl.try_transfer_from(&s, &f, &s, &301)))) }, other_args: vec![] };
                 matrix(rep, &mut u, &over, &stranger, "allowance-exceeded,recipient=spender");
+                // entry points of the token this workload does not know, called by a stranger (who holds
+                // nothing and was granted nothing) with what is at hand: `a`'s balance must not move
+                {
+                    let names = unknown_entry_points("interchain-token", &["owner", "transfer_ownership", "version", "upgrade", "migrate"]);
+                    if !names.is_empty() {
+                        let ck = u.checkpoint();
+                        let e = u.env.clone();
+                        let t0 = tk.clone();
+                        let a0 = a.clone();
+                        let before: i128 = u.query(move |env| InterchainTokenClient::new(env, &t0).balance(&a0));
+                        let tuples: Vec<SVec<Val>> = vec![
+                            (a.clone(), stranger.clone(), 5i128).into_val(&e),
+                            (stranger.clone(), a.clone(), stranger.clone(), 5i128).into_val(&e),
+                            (a.clone(), 5i128).into_val(&e),
+                            (stranger.clone(), a.clone(), 5i128).into_val(&e),
+                        ];
+                        let mut bad: Option<String> = None;
+                        'tp: for auth in [Auth::AllBy(stranger.clone()), Auth::Nobody] {
+                            for name in &names {
+                                for t in &tuples {
+                                    if u.try_unknown(&tk, std::slice::from_ref(name), std::slice::from_ref(t), &auth) > 0 {
+                                        let (t0, a0) = (tk.clone(), a.clone());
+                                        let now: i128 = u.query(move |env| InterchainTokenClient::new(env, &t0).balance(&a0));
+                                        if now < before {
+                                            bad = Some(name.clone());
+                                            break 'tp;
+                                        }
+                                    }
+                                }
+                            }
+                        }
+                        rep.count("unknown-entry-point-tried");
+                        rep.eval("token.unknown-entry-points", &format!("token.unknown|stranger|{}", bad.is_none()), true);
+                        if let Some(name) = bad {
+                            rep.violation("debited-without-owner's-consent:token.unknown-entry-point", format!("a stranger's call of {} lowered another address's balance", name));
+                        }
+                        u.restore(&ck);
+                    }
+                }
                 // an approval that has lapsed (its ledger entry still exists) authorises nothing, not even
                 // a spend of exactly its whole amount
                 {
